@@ -277,6 +277,21 @@ pub fn execute(case: &Case) -> Outcome {
                 c.inc(&format!("result.function-ok.{}", arch.name()));
                 log.u64(f.blocks().len() as u64);
                 log.u64(f.edges().len() as u64);
+                // the recovered function is IL too: its entry and every edge must name
+                // existing blocks (guard exclusivity at function level is C06's business)
+                let ids: BTreeSet<usize> = f.blocks().iter().map(|b| b.index()).collect();
+                let entry = f.control_flow_graph().entry();
+                let bad_edge = f.edges().iter().find(|e| !ids.contains(&e.head()) || !ids.contains(&e.tail())).map(|e| (e.head(), e.tail()));
+                if entry.map(|e| !ids.contains(&e)).unwrap_or(true) || bad_edge.is_some() {
+                    violation = Some(Violation::new(
+                        "graph-entry-exit",
+                        format!("family={} rule=function-entry-or-edge", arch.family()),
+                        format!(
+                            "{} translate_function_extended(@0x{:x}, {}): entry {:?} / edge {:?} names a block that is not in the function ({} blocks)",
+                            arch.name(), case.address, opt, entry, bad_edge, ids.len()
+                        ),
+                    ));
+                }
             }
         }
     }
